@@ -41,6 +41,10 @@ func c15Check[T any](e T, want int) {
 		return
 	}
 	bus3 := New(WithStore(st))
+	if vBool() {
+		// the same bus has already replayed this log once, before any upcaster was known
+		vAssert(bus3.ReplayWithUpcast(ctx, OffsetOldest, func(*StoredEvent) error { return nil }) == nil, "replay-ok")
+	}
 	vAssert(RegisterUpcast(bus3, func(x T) evV2 { return evV2{N: want, V: 2} }) == nil, "register-ok")
 	seenV2 := 0
 	rerr := bus3.ReplayWithUpcast(ctx, OffsetOldest, func(se *StoredEvent) error {
